@@ -18,10 +18,13 @@ RULE = ("requests are drawn from VERIF_SEED in families: exact (dyadic limits, s
         "(count/location bounds), companions with swapped limits / negated epsilon / equal limits. A case is non-trivial "
         "when the limits differ; it is counted once per distinct (family, degree-or-kind, orientation, depth, "
         "log2 evaluation count, warning flag, excused flag)")
-CORR_ONLY = ["order of the two recursive calls (unspecified by C++; model = left half first, as compiled by g++)",
+CORR_ONLY = ["order in which the nodes are visited (left unspecified by the property and, for the two recursive calls, by C++): only the sorted multiset of abscissae is compared (integrate_evals_perm)",
              "Simpson error representation I-S = -(h^5/2880) f''''(xi) (hypothesis of simpson_regular_4eps) is classical analysis, not formalised; "
              "the 4|eps| clause on exp/cosh/power families is decided by the oracle against mpmath"]
 ASSUMPTIONS = ["the user integrand is a pure function (the model takes f : Rat -> Rat)",
+               "the 4|eps| clause is evaluated only on runs WITHOUT the non-convergence warning: when the recursion is cut off by "
+               "maxRecursionDepth (warning printed) the requested accuracy is unattainable by construction (e.g. depth 0 with eps=1e-18), "
+               "which is what simpson_budget states (hypothesis warn = false)",
                "estimator-regular: f'''' keeps one sign and max|f''''|/min|f''''| <= 4 on the interval",
                "libm exp/cosh/pow are accurate to a few ulp (reference: mpmath at 60 digits)"]
 TRUSTED = ["translators/constants.py (regenerates lean/LpModel/C03/Constants.lean from the anchored numeric literals of the current source before every lake build; a missing anchor falls back to the committed default and is recorded in notes.pre_build.anchor_missing)",
@@ -47,8 +50,8 @@ def pre_build(c):
 
 TRACE_MAX = 1100        # abscissae lists are compared element-wise up to this many evaluations
 MARGIN = Fraction(1, 2 ** 30)
-KVAL = 256              # value tolerance K (calibrated: worst observed ratio < 8, x16 safety, see bottom)
-KFAM = 4096
+KVAL = 64               # value tolerance K (audit: worst 36.4 u*scale in 4M cases, 99.97 % <= 8)
+KFAM = 256              # rounding allowance of the 4|eps| clause (audit: at ratio exactly 4 exceeded once by 39 u*scale)
 
 
 # ---------------------------------------------------------------------------------------------------
@@ -321,6 +324,14 @@ def generate(tier, seed, ctx):
         d1 = rng.choice([14, 16, 20]); d2 = rng.choice([0, 0, 1, 2])
         plain_fn = "exp %s %s %s" % (hx(w), hx(0.0), hx(0.0))
         add_nested(0, plain_fn, a, b, eps, d1, fn_poly([1.0, -2.0, 0.5, 1.0]), 0.0, 1.0, 1.0, d2, "nested/exp", famop=True)
+    # 9. depth saturation at depths > 14: eps = 0 and an integrand whose Simpson estimates never agree exactly, so the
+    #    recursion runs to the bottom everywhere and the evaluation count EQUALS the bound 2^(depth+2)+1
+    for depth in ([] if not thorough else [15, 16]):
+        cs = [float(rng.randint(1, 4)) for _ in range(5)] + [1.0, 0.0, 1.0]     # degree 7, dyadic (model-compared)
+        a = float(rng.randint(-2, 1)); b = a + rng.choice([1.0, 2.0])
+        add(rq_int(0, fn_poly(cs), a, b, 0.0, depth), "saturate/poly/depth%d" % depth, companions=False)
+    for depth in (15, 16, 18) if not thorough else (15, 16, 17, 18, 19, 20):
+        add(rq_fam(0, "noise", rng.uniform(1e3, 1e4), rng.uniform(0, 6), 0.0, 0.0, 1.0, 0.0, depth), "saturate/depth%d" % depth, companions=False)
     # negative depth / zero epsilon on the model-compared side too
     for _ in range(30 * N):
         cs = [float(rng.randint(-4, 4)) for _ in range(rng.randint(1, 8))]
@@ -386,6 +397,8 @@ def oracle(d, I, ctx):
     if I["n"] < 5:   # simpson_eval_count_lower: only a == b may return without looking at the integrand
         out.append(fail("prop", "unequal limits: the integrand was evaluated fewer than five times (ends, midpoint, quarter points)",
                         "n=%d val=%r |b-a|/max(|a|,|b|)=%.3g" % (I["n"], I["val"], abs(b - a) / max(abs(a), abs(b)))))
+    if I["n"] == bound and depth > 14:
+        bump(ctx, "depth saturated at depth > 14 (count equals the bound)")
     if I["n"] > bound:
         out.append(fail("prop", "integrand evaluated more than 2^(depth+2)+1 times", "%d > %d" % (I["n"], bound)))
     if I["n"] and (I["mn"] < min(a, b) or I["mx"] > max(a, b)):
@@ -433,11 +446,16 @@ def compare(rq, impl, model, ctx):
         tolx = Fraction(0) if exact_fam else 8 * EPS * max(abs(Fraction(a)), abs(Fraction(b)))
         diverged = None
         if d["tr"] and I["n"] <= TRACE_MAX and M["n"] <= TRACE_MAX:
-            for i, (x, m) in enumerate(zip(I["xs"], M["xs"])):
+            # the property constrains WHERE and HOW OFTEN the integrand is evaluated, not in which order
+            # (integrate_evals_perm): the sorted multisets of abscissae are compared; the call order is a statistic
+            xi, xm = sorted(I["xs"]), sorted(M["xs"])
+            for i, (x, m) in enumerate(zip(xi, xm)):
                 if abs(Fraction(x) - m) > tolx:
-                    diverged = "abscissa %d: impl %r model %r" % (i, x, float(m)); break
+                    diverged = "abscissa %d of the sorted node list: impl %r model %r" % (i, x, float(m)); break
             if diverged is None and I["n"] != M["n"]:
-                diverged = "evaluation count impl %d model %d (common prefix agrees)" % (I["n"], M["n"])
+                diverged = "evaluation count impl %d model %d (common sorted prefix agrees)" % (I["n"], M["n"])
+            if diverged is None and any(abs(Fraction(x) - m) > tolx for x, m in zip(I["xs"], M["xs"])):
+                bump(ctx, "trace: node multiset agrees with the model, call order differs")
         else:
             if I["n"] != M["n"]:
                 diverged = "evaluation count impl %d model %d" % (I["n"], M["n"])
@@ -452,7 +470,7 @@ def compare(rq, impl, model, ctx):
                     out.append(fail("corr", "value differs from the model beyond the algorithm's own tolerance (trace diverged at a knife-edge decision)",
                                     "impl=%r model=%r" % (I["val"], float(M["val"]))))
             else:
-                out.append(fail("corr", "abscissae sequence differs from the model (acceptance decision / recursion)", diverged + " margin=%.3g" % float(M["margin"])))
+                out.append(fail("corr", "set of abscissae differs from the model (acceptance decision / recursion)", diverged + " margin=%.3g" % float(M["margin"])))
         else:
             if I["warn"] != M["warn"] and M["wmargin"] >= MARGIN:
                 out.append(fail("corr", "non-convergence warning differs from the model", "impl %d model %d" % (I["warn"], M["warn"])))
